@@ -226,23 +226,7 @@ func (e *Engine) doCall(st *State, fr *Frame, dst *ssa.Call, cc *ssa.CallCommon,
 			o.top().ip++
 		}
 	}
-	// prune infeasible outcomes first: merged formulas with contradictory arms are very hard for the solvers
-	if len(outs) > 1 {
-		var live []*State
-		for _, o := range outs {
-			r := e.S.Check(o.pc, nil)
-			e.S.EndModel()
-			if r != Unsat {
-				live = append(live, o)
-			}
-		}
-		if len(live) == 0 {
-			st.dead = true
-			st.why = "all callee outcomes infeasible"
-			return nil
-		}
-		outs = live
-	}
+	// every outcome is feasible by construction: branch sides, index splits and assumptions are checked when taken
 	merged := outs[0]
 	rest := outs[1:]
 	if len(outs) > 1 {
@@ -288,6 +272,8 @@ func (e *Engine) opaqueOf(t types.Type) Value {
 // foreign functions whose stubs handle atoms themselves
 var atomTolerant = map[string]bool{
 	"(*regexp.Regexp).MatchString":                          true,
+	"regexp.MustCompile":                                    true,
+	"regexp.Compile":                                        true,
 	"github.com/prometheus/common/model.ParseDuration":     true,
 	"context.WithValue":                                     true,
 	"invoke:context.Value":                                  true,
@@ -384,7 +370,7 @@ func mergeValue(c *Term, a, b Value) (Value, bool) {
 			return nil, false
 		}
 		if x.Atom != nil || y.Atom != nil {
-			if x.Atom != nil && y.Atom != nil {
+			if x.Atom != nil && y.Atom != nil && x.Pre == y.Pre && x.Suf == y.Suf {
 				cands := append([]string(nil), x.Cands...)
 				for _, c2 := range y.Cands {
 					dup := false
@@ -401,7 +387,7 @@ func mergeValue(c *Term, a, b Value) (Value, bool) {
 				if y.Others > oth {
 					oth = y.Others
 				}
-				return StringVal{Atom: Ite(c, x.Atom, y.Atom), Cands: cands, Others: oth}, true
+				return StringVal{Atom: Ite(c, x.Atom, y.Atom), Cands: cands, Others: oth, Pre: x.Pre, Suf: x.Suf}, true
 			}
 			return nil, false
 		}
@@ -621,7 +607,7 @@ func sameValue(a, b Value) bool {
 			return false
 		}
 		if x.Atom != nil {
-			return x.Atom == y.Atom
+			return x.Atom == y.Atom && x.Pre == y.Pre && x.Suf == y.Suf
 		}
 		for i := range x.Bytes {
 			if !sameValue(x.Bytes[i], y.Bytes[i]) {
